@@ -31,9 +31,9 @@ Bad ==
          "closer_sample_left_out_of_neighbour_list")
   \cup b(\A i \in Nodes : Tr.radius[i] = RadiusOf(Dist, i, Adj[i]), "radius_not_largest_neighbour_distance")
   \cup b(\A l \in 1..k : Tr.maxd[l] = RankMax(Dist, Adj, l), "returned_per_rank_maximum_wrong")
-  \* the bound is a running maximum: create_arcs never lowers the bound the subgraph already carries (Tr.prev; rank 0 on a fresh
-  \* subgraph, where the clause is C12's "true maximum over all samples") - a deliberate transcription of the code's behaviour
-  \cup b(LET m == Max2(BoundMax(Dist, Adj), Tr.prev) IN IF m < Tr.eps THEN Tr.bound = Tr.one ELSE Tr.bound = m, "density_bound_not_true_maximum_or_fallback")
+  \* the bound belongs to the arcs just created - also on a subgraph that carried a larger bound from an earlier call (Tr.prev is
+  \* recorded for the reader; until the repair of create_arcs the code kept the running maximum, see DESIGN 11.4)
+  \cup b(LET m == BoundMax(Dist, Adj) IN IF m < Tr.eps THEN Tr.bound = Tr.one ELSE Tr.bound = m, "density_bound_not_true_maximum_or_fallback")
 MechOK == \A i \in Nodes : Adj[i] = ScanNode(Dist, i, k)
 
 ASSUME TLCSet(1, {}) /\ TLCSet(2, {}) /\ TLCSet(3, {})
